@@ -1106,6 +1106,36 @@ fn seen_kind(s: Seen) -> Option<Kind> {
     }
 }
 
+/// C17: name, from the delivered request bytes alone, the known ways an answer outgrows its request.
+/// * short-unique-identifier-padding: the request carries a unique-identifier field that the
+///   answer's encoder pads (NTPv4: echoed fields get 16 bytes, the last one 28; NTPv5: only
+///   authenticated fields of an NTS request get 16).
+/// * v5-draft-identification-added: an NTPv5 request without a draft-identification field of
+///   (at least) the 28 bytes every NTPv5 answer carries.
+/// Anything else is `other` (never listed as known).
+fn c17_cause(view: &wire::View, twin_answer: Seen) -> String {
+    let mut causes: Vec<&str> = Vec::new();
+    let short_uid = view.fields.iter().any(|f| {
+        f.type_id == wire::T_UID
+            && match view.version {
+                4 => f.wire_len < 28,
+                5 => f.wire_len < 16 && view.has_type(wire::T_ENC),
+                _ => false,
+            }
+    });
+    if short_uid {
+        causes.push("short-unique-identifier-padding");
+    }
+    // (a draft-less NTPv5 request can only be answered through the failed-authenticator path: NAK / DENY)
+    if view.version == 5 && twin_answer != Seen::Time && !view.fields.iter().any(|f| f.type_id == wire::T_DRAFT && f.wire_len >= 28) {
+        causes.push("v5-draft-identification-added");
+    }
+    if causes.is_empty() {
+        causes.push("other");
+    }
+    format!("cause={}", causes.join("+"))
+}
+
 /// Ground truth from the DELIVERED bytes: does this datagram authenticate as an NTS request of the
 /// session it was made under? Independent check: exactly one cookie field before the first
 /// authenticator field, carrying the cookie the server minted for the session, and the
@@ -1449,7 +1479,7 @@ async fn deliver(w: &mut World, d: Datagram<ReqSpec>) {
                         "{} request of {} bytes ({}; uid fields {}, cookie+placeholder fields {}): with a 4096-byte buffer the server answers {tseen:?} in {} bytes, with the daemon's request-sized buffer the client saw {seen:?} (statistics: {reason})",
                         spec.label,
                         bytes.len(),
-                        if view.fields.iter().any(|f| f.type_id == wire::T_UID && f.wire_len < 28) { "has unique-identifier fields shorter than the 16/28-byte minimum an answer pads them to" } else { "no short unique-identifier field" },
+                        c17_cause(&view, tseen),
                         view.count(wire::T_UID),
                         view.count(wire::T_COOKIE) + view.count(wire::T_PLACEHOLDER),
                         tr.len()
